@@ -1,0 +1,238 @@
+//go:build verif && (verif_all || verif_c01 || verif_c06)
+// +build verif
+// +build verif_all verif_c01 verif_c06
+
+package gocql
+
+// Verification hooks (build tag `verif`): the receive side of a connection (Conn.Read, readHeader,
+// Conn.recv, framer.readFrame, Conn.discardFrame) driven over a SCRIPTED socket: a sequence of byte
+// chunks and read-deadline expiry points, no wall clock involved. Add-only.
+
+import (
+	"bufio"
+	"context"
+	"fmt"
+	"hash/fnv"
+	"io"
+	"net"
+	"runtime"
+	"strings"
+	"time"
+
+	"github.com/gocql/gocql/internal/streams"
+)
+
+// VerifLastHangDump holds the goroutine dump taken when VerifRecvScript last found recv blocked.
+var VerifLastHangDump string
+
+type verifScriptTimeout struct{}
+
+func (verifScriptTimeout) Error() string   { return "verif: scripted read deadline exceeded (i/o timeout)" }
+func (verifScriptTimeout) Timeout() bool   { return true }
+func (verifScriptTimeout) Temporary() bool { return true }
+
+// verifScriptConn: items[i] == nil is a point at which a read that is blocked with a deadline set
+// fails with a timeout (a read without deadline just waits through it); otherwise a chunk of bytes.
+type verifScriptConn struct {
+	items [][]byte
+	cur   []byte
+	armed bool
+}
+
+func (c *verifScriptConn) Read(p []byte) (int, error) {
+	for {
+		if len(c.cur) > 0 {
+			n := copy(p, c.cur)
+			c.cur = c.cur[n:]
+			return n, nil
+		}
+		if len(c.items) == 0 {
+			return 0, io.EOF
+		}
+		it := c.items[0]
+		c.items = c.items[1:]
+		if it == nil {
+			if c.armed {
+				return 0, verifScriptTimeout{}
+			}
+			continue
+		}
+		c.cur = it
+	}
+}
+func (c *verifScriptConn) Write(p []byte) (int, error)        { return len(p), nil }
+func (c *verifScriptConn) Close() error                       { return nil }
+func (c *verifScriptConn) LocalAddr() net.Addr                { return &net.TCPAddr{IP: net.IPv4(127, 0, 0, 1), Port: 1} }
+func (c *verifScriptConn) RemoteAddr() net.Addr               { return &net.TCPAddr{IP: net.IPv4(127, 0, 0, 1), Port: 2} }
+func (c *verifScriptConn) SetDeadline(t time.Time) error      { c.armed = !t.IsZero(); return nil }
+func (c *verifScriptConn) SetReadDeadline(t time.Time) error  { c.armed = !t.IsZero(); return nil }
+func (c *verifScriptConn) SetWriteDeadline(t time.Time) error { return nil }
+
+type verifHeaderLog struct{ hs []ObservedFrameHeader }
+
+func (l *verifHeaderLog) ObserveFrameHeader(_ context.Context, h ObservedFrameHeader) {
+	l.hs = append(l.hs, h)
+}
+
+func verifErrClass(err error) string {
+	if err == nil {
+		return "ok"
+	}
+	if _, ok := err.(*protocolError); ok {
+		return "proto"
+	}
+	s := err.Error()
+	switch {
+	case strings.Contains(s, "unsupported protocol response version"):
+		var v int
+		fmt.Sscanf(s[strings.LastIndex(s, ":")+1:], "%d", &v)
+		return fmt.Sprintf("ver%d", v)
+	case strings.Contains(s, "beyond call expected bounds"):
+		return "bounds"
+	case strings.Contains(s, "can not be less than 0"):
+		return "neg"
+	case strings.Contains(s, "no compressor available"):
+		return "comp"
+	case strings.Contains(s, "i/o timeout"):
+		return "tmo"
+	case strings.Contains(s, "EOF"):
+		return "eof"
+	case err == ErrFrameTooBig:
+		return "big"
+	}
+	return "other:" + strings.ReplaceAll(s, " ", "_")
+}
+
+func verifFnv(b []byte) uint32 {
+	h := fnv.New32a()
+	h.Write(b)
+	return h.Sum32()
+}
+
+// VerifConnReadScript runs ONE Conn.Read(p) with len(p) == k over the scripted socket and reports the count
+// it returned, the class of its error, a hash of p[:n] and how many bytes a following read still finds.
+func VerifConnReadScript(withTimeout bool, items [][]byte, k int) string {
+	sc := &verifScriptConn{items: items}
+	c := &Conn{conn: sc, r: bufio.NewReader(sc)}
+	if withTimeout {
+		c.timeout = time.Hour
+	}
+	p := make([]byte, k)
+	n, err := c.Read(p)
+	if n < 0 || n > k {
+		return fmt.Sprintf("count-out-of-range:%d", n)
+	}
+	sc.armed = false
+	rest, _ := io.ReadAll(c.r)
+	return fmt.Sprintf("%d:%s:%08x:%d", n, verifErrClass(err), verifFnv(p[:n]), len(rest))
+}
+
+// VerifRecvScript runs Conn.recv in a loop over the scripted socket until it returns an error. waiting
+// and gone are the stream ids with a registered call (still in its select / having closed its timeout
+// channel). The answer lists every frame in arrival order with what became of it — for a frame handed
+// to a waiting call: the header the CALLER finds in the framer it was given, inspected only after the
+// whole script has been received, and a hash of the body it finds — and ends with the class of the
+// error that ended the loop.
+func VerifRecvScript(proto int, withTimeout bool, items [][]byte, waiting, gone []int) string {
+	sc := &verifScriptConn{items: items}
+	ctx, cancel := context.WithCancel(context.Background())
+	defer cancel()
+	obs := &verifHeaderLog{}
+	sess := &Session{logger: nopLogger{}}
+	sess.nodeEvents = newEventDebouncer("verifNode", func([]frame) {}, nopLogger{})
+	sess.schemaEvents = newEventDebouncer("verifSchema", func([]frame) {}, nopLogger{})
+	defer sess.nodeEvents.stop()
+	defer sess.schemaEvents.stop()
+	c := &Conn{
+		conn:          sc,
+		r:             bufio.NewReader(sc),
+		calls:         make(map[int]*callReq),
+		version:       uint8(proto),
+		streams:       streams.New(proto),
+		frameObserver: obs,
+		session:       sess,
+		ctx:           ctx,
+		cancel:        cancel,
+		logger:        nopLogger{},
+	}
+	if withTimeout {
+		c.timeout = time.Hour
+	}
+	calls := map[int]*callReq{}
+	for _, id := range waiting {
+		call := &callReq{streamID: id, resp: make(chan callResp, 1), timeout: make(chan struct{})}
+		c.calls[id] = call
+		calls[id] = call
+	}
+	isGone := map[int]bool{}
+	for _, id := range gone {
+		call := &callReq{streamID: id, resp: make(chan callResp), timeout: make(chan struct{})}
+		close(call.timeout)
+		c.calls[id] = call
+		isGone[id] = true
+	}
+	var err error
+	done := make(chan struct{})
+	go func() {
+		for i := 0; err == nil && i < 1<<20; i++ {
+			err = c.recv(ctx)
+		}
+		close(done)
+	}()
+	hung := false
+	select {
+	case <-done:
+	case <-time.After(15 * time.Second):
+		// a second window: one stall of the machine / jump of the clock must not read as a blocked loop
+		select {
+		case <-done:
+		case <-time.After(15 * time.Second):
+			hung = true
+		}
+	}
+	if hung {
+		buf := make([]byte, 1<<16)
+		n := runtime.Stack(buf, true)
+		VerifLastHangDump = string(buf[:n])
+		return "crash:hang-recv-blocked(15s-watchdog)"
+	}
+	var out []string
+	for _, h := range obs.hs {
+		id := int(h.Stream)
+		hs := fmt.Sprintf("%d:%d:%d:%d", id, byte(h.Opcode), h.Flags, h.Length)
+		switch {
+		case id == -1:
+			out = append(out, "E:"+hs)
+		case id <= 0:
+			out = append(out, "P:"+hs)
+		case isGone[id]:
+			delete(isGone, id)
+			out = append(out, "R:"+hs)
+		case calls[id] != nil:
+			call := calls[id]
+			delete(calls, id)
+			select {
+			case r := <-call.resp:
+				if r.err != nil {
+					l, ok := map[string]string{"tmo": "B", "eof": "B", "neg": "N", "comp": "C", "big": "G"}[verifErrClass(r.err)]
+					if !ok {
+						l = "?" + verifErrClass(r.err)
+					}
+					out = append(out, l+":"+hs)
+				} else {
+					fh := r.framer.header
+					out = append(out, fmt.Sprintf("D:%d:%d:%d:%d:%08x", fh.stream, byte(fh.op), fh.flags, fh.length, verifFnv(r.framer.buf)))
+				}
+			default:
+				out = append(out, "?:"+hs) // header seen, nothing handed to the call (the loop ended inside this frame)
+			}
+		default:
+			out = append(out, "X:"+hs)
+		}
+	}
+	cls := verifErrClass(err)
+	if n := len(obs.hs); n > 0 && obs.hs[n-1].Stream <= 0 && obs.hs[n-1].Stream != -1 && strings.HasPrefix(cls, "other:") {
+		cls = "proto" // a frame on a reserved stream: whatever parseFrame made of it, the loop ends
+	}
+	return strings.Join(append(out, ";"+cls), " ")
+}
